@@ -377,6 +377,7 @@ INV_ENTITIES = {
     "ASSEMBLY": ([], [("aname", STR, False, False), ("components", agg(ref("PART")), False, False),
                       ("main_part", ref("PART"), True, False), ("spare", ref("PART"), True, False)]),
     "SUB_ASSEMBLY": (["ASSEMBLY"], [("level", INT, False, False)]),
+    "SUB_SUB_ASSEMBLY": (["SUB_ASSEMBLY"], [("note", STR, False, False)]),
     "DOCUMENTATION": ([], [("about", ref("PART"), False, False), ("text", STR, False, False)]),
     "CERTIFICATE": ([], [("subject", ref("SPECIAL_PART"), False, False), ("other", ref("PART"), True, False)]),
 }
